@@ -78,6 +78,10 @@ define_ops! {
     xor_rr = |a: U, b: U| &a ^ &b;
     xor_assign_v = |a: U, b: U| { a ^= b; a };
     xor_assign_r = |a: U, b: U| { a ^= &b; a };
+    // both operands are the SAME object (shortcuts keyed on pointer identity)
+    and_alias = |a: U| &a & &a;
+    or_alias = |a: U| &a | &a;
+    xor_alias = |a: U| &a ^ &a;
     bit = |a: U, i: N| a.bit(i);
     set_bit = |a: U, i: N, v: BO| { a.set_bit(i, v); a };
     byte = |a: U, i: N| a.byte(i);
@@ -192,6 +196,8 @@ fn model(bits: usize, op: Op, args: &[V]) -> Expect {
         not_m | not_v | not_r => is(u(&(&m - 1u32 - &a), bits)).nt(true),
         and_vv | and_vr | and_rv | and_rr | and_assign_v | and_assign_r => is(u(&(&a & big(args[1].limbs())), bits)).nt(true),
         or_vv | or_vr | or_rv | or_rr | or_assign_v | or_assign_r => is(u(&(&a | big(args[1].limbs())), bits)).nt(true),
+        and_alias | or_alias => is(u(&a, bits)).nt(true),
+        xor_alias => is(zero()).nt(true),
         xor_vv | xor_vr | xor_rv | xor_rr | xor_assign_v | xor_assign_r => is(u(&(&a ^ big(args[1].limbs())), bits)).nt(true),
         bit => {
             let i = args[1].as_n() as usize;
@@ -290,13 +296,15 @@ fn c05(r: &Runner) {
     if !r.is_thorough() {
         widths.push(1024);
     }
+    // limb counts 17..=24: two of them on every change, all eight in the thorough tier
+    widths.extend(if r.is_thorough() { W_LADDER.to_vec() } else { vec![1150, 1471] });
     if SWEEP {
         widths = WIDTHS.to_vec();
     }
     for bits in widths {
         let smax = bits + 64 * nlimbs(bits) + 1;
         // budget: values x amounts x 10 methods stays below ~3*10^7 (quick) / 3*10^8 (thorough) per width
-        let per = if SWEEP { 400_000 } else if r.is_thorough() { 30_000_000 } else { 3_000_000 };
+        let per = if SWEEP { 400_000 } else if r.is_thorough() { 30_000_000 } else if bits > 1024 { 1_500_000 } else { 3_000_000 };
         let (vals, d) = values_for(r, bits, (per / (smax + 1)).max(8));
         r.universe(&format!("{d} x s in 0..={smax} (methods)"), bits, vals.len(), |i, l| {
             let a = vu(&vals[i]);
@@ -388,14 +396,17 @@ fn c05(r: &Runner) {
 const C06_UN: &[Op] = &[
     Op::not_m, Op::not_v, Op::not_r, Op::reverse_bits, Op::leading_zeros, Op::leading_ones, Op::trailing_zeros, Op::trailing_ones, Op::count_ones,
     Op::count_zeros, Op::bit_len, Op::byte_len, Op::most_significant_bits, Op::is_power_of_two, Op::next_power_of_two, Op::checked_next_power_of_two,
+    Op::and_alias, Op::or_alias, Op::xor_alias,
 ];
+/// one width per limb count 17..=24 (every residue of the limb count modulo 2, 4 and 8 above 16 limbs: tails of unrolled loops)
+const W_LADDER: &[usize] = &[1088, 1150, 1216, 1280, 1344, 1408, 1471, 1536];
 const C06_BIN: &[Op] = &[
     Op::and_vv, Op::and_vr, Op::and_rv, Op::and_rr, Op::and_assign_v, Op::and_assign_r, Op::or_vv, Op::or_vr, Op::or_rv, Op::or_rr, Op::or_assign_v,
     Op::or_assign_r, Op::xor_vv, Op::xor_vr, Op::xor_rv, Op::xor_rr, Op::xor_assign_v, Op::xor_assign_r,
 ];
 
 fn c06(r: &Runner) {
-    r.set_rule("unary operations on every value of S(B), B <= 16, and of L/R/P(B) at edge widths and 1024/4096; binary logic on all pairs of S(B), B <= 8 (10 thorough), and of the wide universes; indexed accessors on every index in [0, BITS+64] (bit, set_bit with both values) resp. [0, BYTES+8] (byte, checked_byte). every case is counted as non-trivial except in-range low-limb index reads");
+    r.set_rule("unary operations (incl. &x op &x on one object) on every value of S(B), B <= 16, and of L/R/P(B) at edge widths, 1024/4096 and one width per limb count 17..=24; binary logic on all pairs of S(B), B <= 8 (10 thorough), and of the wide universes; indexed accessors on every index in [0, BITS+64] (bit, set_bit with both values) resp. [0, BYTES+8] (byte, checked_byte). every case is counted as non-trivial except in-range low-limb index reads");
     for bits in 0..=(if SWEEP { 10usize } else { 16 }) {
         let u = small_all(bits);
         r.universe(&format!("S({bits}) unary"), bits, u.len(), |i, l| {
@@ -426,6 +437,7 @@ fn c06(r: &Runner) {
         ws.push(1024);
     }
     ws.push(4096);
+    ws.extend_from_slice(W_LADDER);
     if SWEEP {
         ws = WIDTHS.iter().copied().filter(|w| *w > 10).collect();
     }
